@@ -289,6 +289,9 @@ structure Hist where
   fault : Option Nat  -- instant of the injected underlay failure (TCP reset / UDP black hole)
   calls : List Call
   dls : List DlSet
+  /-- the side at which an application has stopped reading a connection whose queues are full (TCP):
+      the event loop of that side's underlay may be parked in `deliverSegmentToSession` (see §4) -/
+  stall : Option Side := none
 deriving Repr
 
 /-- a wake cause for the session-level waits of one end of one session: when it started, and from
@@ -312,6 +315,10 @@ def localCloseSure (cs : List Call) : Option Nat :=
     let minRet := rest.foldl (fun m x => min m x.ret) c.ret
     some (((c :: rest).filter fun x => x.start ≤ minRet).foldl (fun m x => max m x.ret) 0)
 
+/-- does news from the network reach the sessions of this side?  Not while its TCP event loop is
+    parked behind a connection whose application has stopped reading (§4). -/
+def hearsNetwork (h : Hist) (side : Side) : Bool := h.udp || h.stall != some side
+
 def causes (h : Hist) (side : Side) (sess : Nat) : List Cause :=
   let okc := h.calls.filter fun c => c.kind == .ok
   let localClose := okc.filter fun c => c.op == .close && c.side == side && c.sess == sess
@@ -325,11 +332,11 @@ def causes (h : Hist) (side : Side) (sess : Nat) : List Cause :=
     | none => []
     | some g => [{ start := (localClose.foldl (fun m x => min m x.start) g), sure := some g }]) ++
   (localMux.map fun c => { start := c.start, sure := some c.ret }) ++
-  (peerClose.map fun c => { start := c.start, sure := if noFaultBefore h c.ret then some (c.ret + h.prop) else none }) ++
-  (peerMux.map fun c => { start := c.start, sure := if noFaultBefore h c.ret then some (c.ret + h.prop) else none }) ++
+  (peerClose.map fun c => { start := c.start, sure := if noFaultBefore h c.ret && hearsNetwork h side then some (c.ret + h.prop) else none }) ++
+  (peerMux.map fun c => { start := c.start, sure := if noFaultBefore h c.ret && hearsNetwork h side then some (c.ret + h.prop) else none }) ++
   (match h.fault with
     | none => []
-    | some f => [{ start := f, sure := if h.udp then none else some (f + h.prop) }]) ++
+    | some f => [{ start := f, sure := if h.udp || !hearsNetwork h side then none else some (f + h.prop) }]) ++
   pending
 
 /-- a timeout needs a deadline: one set by the application on that end for that direction, or (reads
@@ -356,11 +363,63 @@ def checkCall (h : Hist) (c : Call) : Bool :=
     | _ => true
 
 /-- a history with the tolerances the harness uses (bound 15 s, propagation 2 s, clock 50 ms) -/
-def hist (udp : Bool) (calls : List Call) : Hist := ⟨udp, 15000, 2000, 50, none, calls, []⟩
+def hist (udp : Bool) (calls : List Call) (stall : Option Side := none) : Hist := ⟨udp, 15000, 2000, 50, none, calls, [], stall⟩
 
 /-- index of the first call the model cannot explain -/
 def firstRejected (h : Hist) : Option Nat := h.calls.findIdx? fun c => !checkCall h c
 
 def acceptHist (h : Hist) : Bool := h.calls.all (checkCall h)
+
+/-! ## 4. The event loop of a stream underlay: reading the network, or parked behind one session
+
+`StreamUnderlay.RunEventLoop` alternates between `readOneSegment` (parked in `conn.Read`: woken by
+data, by the end or the loss of the connection, and by the pokes of `Close`) and
+`deliverSegmentToSession` (parked on `s.recvChan <- seg` of ONE session: woken by a free slot, by that
+session's `closedChan`, by the underlay's `done`).  While it is parked there it does not read, so the
+end or loss of the TCP connection is not noticed, and the sessions of the other connections
+multiplexed on the underlay are not closed. -/
+
+inductive LoopAt
+  | reading
+  | delivering (sess : Nat)
+deriving DecidableEq, Repr
+
+/-- one side of one TCP underlay -/
+structure USt where
+  loop : LoopAt
+  netLost : Bool            -- the connection was reset, or closed by the other side
+  underlayDone : Bool
+  sessClosed : List Bool    -- per connection of the underlay: `closedChan` is closed
+  appReads : List Bool      -- per connection: the application keeps reading (its queues drain)
+deriving DecidableEq, Repr
+
+/-- the delivery to connection `i` completes or is abandoned: the underlay or the session is closed,
+    or its application keeps reading -/
+def deliverable (u : USt) (i : Nat) : Bool :=
+  u.underlayDone || u.sessClosed.getD i false || u.appReads.getD i false
+
+/-- one step of the event loop, `none` = parked -/
+def loopStep (u : USt) : Option USt :=
+  match u.loop with
+  | .reading =>
+    if u.underlayDone then none
+    else if u.netLost then
+      -- readOneSegment fails, RunEventLoop returns, the mux goroutine calls underlay.Close()
+      some { u with underlayDone := true, sessClosed := u.sessClosed.map fun _ => true }
+    else none
+  | .delivering i =>
+    if deliverable u i then some { u with loop := .reading } else none
+
+/-- run the loop until it parks (fuel 3 is enough: deliver → read → close) -/
+def runLoop : Nat → USt → USt
+  | 0, u => u
+  | n + 1, u => match loopStep u with
+    | none => u
+    | some u' => runLoop n u'
+
+/-- the connection is lost; what the loop does about it -/
+def afterLoss (u : USt) : USt := runLoop 3 { u with netLost := true }
+
+def allReleased (u : USt) : Bool := u.sessClosed.all id
 
 end Mieru.Blocking
